@@ -259,7 +259,62 @@ func c01Scenarios(thorough bool) []*explore.Scenario {
 			add("2conn:"+strings.Join(a, "+")+"|"+strings.Join(b, "+"), [][]string{a, b}, false, q2, explore.Bounds{P: 2})
 		}
 	}
+	scs = append(scs, &explore.Scenario{Name: "1conn:AuthOK-then-8-repeated-auths", Quick: explore.Bounds{P: 0}, Thorough: explore.Bounds{P: 1}, Body: c01RepeatedAuth})
 	return scs
+}
+
+// c01RepeatedAuth: one connection, accepted authentication, then a run of further auth requests
+// (rejected and accepted credentials alternating): every one is answered 233 without consulting
+// the authenticator again, and after each of them the connection still proxies. "A later rejected
+// or repeated attempt does not revoke access" for ANY number of attempts (added after the
+// independently seeded change C01-5: the fourth auth request closed the connection).
+func c01RepeatedAuth(e *vsched.Exec) {
+	r := newRig(e, rigOpts{})
+	if r.srv == nil {
+		return
+	}
+	cl := r.dial("A")
+	if resp, err := cl.auth("good", 0); err != nil || resp.Status != protocol.StatusAuthOK {
+		e.Fail("valid credentials got %v %v", resp, err)
+		return
+	}
+	proxied := func(tag string) {
+		str, err := cl.rawTCP("t-" + tag + ":80")
+		if err != nil {
+			e.Fail("(b) after %s the authenticated connection does not open a proxy stream any more: %v", tag, err)
+			return
+		}
+		ok, msg, err := protocol.ReadTCPResponse(str)
+		if err != nil || !ok {
+			e.Fail("(b) after %s a TCP request on the authenticated connection got (%v, %q, %v) instead of a Connected response: access was revoked", tag, ok, msg, err)
+		}
+		str.CancelRead(0)
+		_ = str.Close()
+	}
+	proxied("first-auth")
+	for i, cred := range []string{"bad", "good", "bad", "wrong", "good", "bad", "bad", "good"} {
+		tag := fmt.Sprintf("repeated-auth-%d-%s", i+1, cred)
+		resp, err := cl.auth(cred, 0)
+		if err != nil {
+			e.Fail("(b) repeated auth request #%d (%q) on the authenticated connection failed: %v", i+1, cred, err)
+			break
+		}
+		if resp.Status != protocol.StatusAuthOK {
+			e.Fail("(b) repeated auth request #%d (%q) on the authenticated connection got status %d", i+1, cred, resp.Status)
+		}
+		proxied(tag)
+	}
+	n := 0
+	for _, ev := range r.Events {
+		if ev.Kind == "auth" {
+			n++
+		}
+	}
+	if n != 1 {
+		e.Fail("(b) the authenticator was consulted %d times for one connection", n)
+	}
+	cl.close()
+	r.shutdown(true)
 }
 
 func TestVerifC01(t *testing.T) {
